@@ -66,3 +66,8 @@ def logs_cancel(h, ctx, label, total_ld):
         ensure(h, ctx, label, numr == den)
     else:
         ensure(h, ctx, label, total_ld == 0)
+
+
+def native_cast(m):
+    """bring a natively constructed module to the dtype of the current native replay (float64, then float32)"""
+    return m.to(NATIVE_DTYPE[0])
